@@ -10,6 +10,13 @@ Behavioural tie: for every layer of every generated model, the live layer is rea
     (set of read arguments that changed; raise / ok)
 Clause oracle on the real code: the three routes must not raise, must predict bit-identically and
 must report identical get_quantizers() strings, with no user custom objects.
+
+Strengthening round (seed C13-4): stream `array-args` — constructor arguments that take an array, a
+tuple or a list, at degenerate shapes (kernel masks for every unit / rectangular kernel shape and
+every mask form the constructor accepts, kernel_size / strides / dilation_rate / pool_size / axis as
+int, tuple and list, list-valued quantizer options, array-valued post_training_scale / alpha).  The
+cases are branches of a few multi-input models (one set of routes per model); when a route fails,
+every branch is re-run as a model of its own so that the violation names the concrete failing layer.
 """
 import fractions
 import json
@@ -96,8 +103,14 @@ def is_quantizer(o):
   return isinstance(o, base_quantizer.BaseQuantizer)
 
 
+# {quantizer class: arguments on which its get_config calls `.tolist()`} — from the model's tables
+QTOLIST = {}
+
+
 def quant_json(q, qparams):
-  """live quantizer -> QVal protocol form (every constructor argument read from its attribute)"""
+  """live quantizer -> QVal protocol form (every constructor argument read from its attribute).
+  `native`: arguments (among those the class calls `.tolist()` on) whose live value is a plain
+  Python object — the one Python-type distinction the model keeps."""
   if q is None:
     return None
   cls = q.__class__.__name__
@@ -106,7 +119,8 @@ def quant_json(q, qparams):
   args = []
   for p in qparams[cls]:
     args.append([p, enc_pv(canon(getattr(q, p)))])
-  return {"obj": {"cls": cls, "args": args}}
+  native = [p for p in QTOLIST.get(cls, []) if getattr(q, p) is not None and not hasattr(getattr(q, p), "tolist")]
+  return {"obj": {"cls": cls, "args": args, "native": native}}
 
 
 def act_json(a, qparams, raw=False):
@@ -135,7 +149,12 @@ def layer_json(layer, spec, qparams):
   import tensorflow as tf
   from qkeras import qlayers
   cls = layer.__class__.__name__
-  cfg = layer.get_config()
+  cfg_exc = None
+  try:
+    cfg = layer.get_config()
+  except Exception as e:  # pylint: disable=broad-except
+    # the layer is still read from its attributes; the model is asked whether get_config raises
+    cfg, cfg_exc = {}, e
   pnames = [p["name"] for p in spec["params"]]
   kwargs = [[k, enc_pv(json_canon(v))] for k, v in cfg.items() if k not in pnames]
   args = []
@@ -201,7 +220,16 @@ def layer_json(layer, spec, qparams):
         args.append([name, {"init": {"keras": enc_pv(json_canon(tf.keras.initializers.serialize(i)))}}])
     else:
       raise core.InfraError("kind %s" % k)
-  return {"cls": cls, "kwargs": kwargs, "args": args}, from_cfg
+  return {"cls": cls, "kwargs": kwargs, "args": args, "cfg_exc": cfg_exc}, from_cfg
+
+
+def lj2_exc(layer):
+  """re-raise what get_config of a rebuilt layer raised (it is reported as a `serialise` violation)"""
+  try:
+    layer.get_config()
+  except Exception as e:  # pylint: disable=broad-except
+    return e
+  return RuntimeError("get_config raised once and not the second time")
 
 
 def qstr(q):
@@ -228,9 +256,13 @@ def quantizer_strings(model):
 
 # ----------------------------------------------------------------------------- routes
 
-def run_routes(model, x, scratch, branches=None):
-  """the three routes on the real code -> {route: (status, detail, model2)}"""
+def run_routes(model, x, scratch, branches=None, eager=False):
+  """the three routes on the real code -> {route: (status, detail, model2)}.
+  eager: `predict` runs with `run_eagerly` on the original and on every rebuilt model (the packed
+  many-branch models: tracing their predict function four times dominates the run otherwise)"""
   from qkeras.utils import clone_model, quantized_model_from_json, load_qmodel
+  if eager:
+    model.run_eagerly = True
   y0 = np.asarray(model.predict(x, verbose=0))
   q0 = quantizer_strings(model)
   res = {}
@@ -250,6 +282,8 @@ def run_routes(model, x, scratch, branches=None):
         model.save(path)
         m2 = load_qmodel(path, compile=False)
         os.remove(path)
+      if eager:
+        m2.run_eagerly = True
       y = np.asarray(m2.predict(x, verbose=0))
       q = quantizer_strings(m2)
       if y.shape != y0.shape or y.tobytes() != y0.tobytes():
@@ -584,6 +618,295 @@ def explicit_none_cases(specs, tier):
   return out
 
 
+# ----------------------------------------------------------------------------- array / tuple / list arguments
+
+KERNEL_SHAPES = [(1, 1), (1, 3), (3, 1), (1, 2), (2, 1), (2, 3), (3, 2), (3, 3)]
+MASK_FORMS = ["hw", "hw11", "hw1", "col", "row", "one"]
+
+
+def make_mask(rng, ks, form, dtype):
+  """a kernel mask as the user passes it: `form` = the array shape relative to the kernel (h, w):
+  hw (h,w) | hw11 (h,w,1,1) | hw1 (h,w,1) | col (h,1): broadcast over the width | row (1,w) | one (1,1)"""
+  h, w = ks
+  shape = {"hw": (h, w), "hw11": (h, w, 1, 1), "hw1": (h, w, 1), "col": (h, 1), "row": (1, w), "one": (1, 1)}[form]
+  if dtype == "float":
+    m = rng.integers(0, 3, shape).astype(np.float32) / np.float32(2)
+  else:
+    m = rng.integers(0, 2, shape).astype(np.int64)
+  m.flat[int(rng.integers(0, m.size))] = 1     # never all-zero: the branch output must depend on the kernel
+  return m.astype(bool) if dtype == "bool" else m
+
+
+def mask_branches(rng, tier):
+  """QConv2D / QConv2DBatchnorm with a kernel mask: every kernel shape of KERNEL_SHAPES (all unit and
+  rectangular ones) with the plain (h, w) form, every other form on a drawn kernel shape, dtype drawn"""
+  import qkeras as Q
+  out = []
+  def add(cls_name, ks, form, dtype):
+    mask = make_mask(rng, ks, form, dtype)
+    lab = "%s(2, %s, mask=<%s array of shape %s: %s>)" % (cls_name, ks, dtype, mask.shape,
+                                                          json.dumps(np.asarray(mask, dtype=np.float64).ravel().tolist()))
+    def mk(name, cls_name=cls_name, ks=ks, mask=mask):
+      return getattr(Q, cls_name)(2, ks, mask=mask, padding="same", name=name,
+                                  kernel_quantizer=Q.quantized_bits(4, 0, 1, alpha=1.0))
+    out.append(dict(label=lab, cls=cls_name, inp=0, make=mk, mask=mask,
+                    key={"layer": cls_name, "qclass": "mask", "option": "kernel=%dx%d mask=%s/%s" % (ks + (form, dtype))}))
+  dts = ["int", "float", "bool"]
+  for cls_name in ("QConv2D", "QConv2DBatchnorm"):
+    for ks in KERNEL_SHAPES:
+      add(cls_name, ks, "hw", dts[int(rng.integers(0, 3))])
+    for form in MASK_FORMS[1:]:
+      if cls_name == "QConv2D" or tier != "quick" or form in ("hw11", "col"):
+        add(cls_name, KERNEL_SHAPES[int(rng.integers(0, len(KERNEL_SHAPES)))], form, dts[int(rng.integers(0, 3))])
+  return [((5, 5, 2),)], out
+
+
+def tuple_branches(rng, tier):
+  """kernel_size / strides / dilation_rate / pool_size / axis given as int, tuple or list, with unit
+  entries and rectangular values, over every layer class that takes them"""
+  import qkeras as Q
+  qb = lambda: Q.quantized_bits(4, 0, 1, alpha=1.0)
+  seq = lambda v: (list(v) if rng.integers(0, 2) else tuple(v))     # list or tuple, drawn
+  out = []
+  def add(cls_name, inp, lab, mk):
+    out.append(dict(label="%s(%s)" % (cls_name, lab), cls=cls_name, inp=inp, make=mk,
+                    key={"layer": cls_name, "qclass": "tuple-args", "option": lab}))
+  def conv2d_like(cls_name, first, wkw):
+    variants = [dict(kernel_size=seq((1, 3)), strides=seq((2, 1))), dict(kernel_size=3, dilation_rate=seq((1, 2))),
+                dict(kernel_size=seq((2, 1)), strides=seq((1, 2))), dict(kernel_size=seq((1, 1)), strides=2),
+                dict(kernel_size=seq((3, 1)), dilation_rate=seq((2, 1)))]
+    if cls_name.startswith("QDepthwiseConv2DBatchnorm"):
+      variants = [v for v in variants if "dilation_rate" not in v]
+    n_pick = 1 if cls_name.endswith("Batchnorm") else 2      # the folded layers inherit the plain ones' config code
+    picks = variants if tier != "quick" else [variants[int(i)] for i in rng.choice(len(variants), n_pick, replace=False)]
+    for kw in picks:
+      lab = ", ".join("%s=%r" % kv for kv in sorted(kw.items()))
+      add(cls_name, 0, lab, lambda name, kw=kw: getattr(Q, cls_name)(*first, name=name, padding="same", **dict(kw, **wkw())))
+  conv2d_like("QConv2D", (2,), lambda: dict(kernel_quantizer=qb()))
+  conv2d_like("QConv2DBatchnorm", (2,), lambda: dict(kernel_quantizer=qb()))
+  conv2d_like("QDepthwiseConv2D", (), lambda: dict(depthwise_quantizer=qb()))
+  conv2d_like("QDepthwiseConv2DBatchnorm", (), lambda: dict(depthwise_quantizer=qb()))
+  conv2d_like("QSeparableConv2D", (2,), lambda: dict(depthwise_quantizer=qb(), pointwise_quantizer=qb()))
+  for kw in [dict(pool_size=seq((1, 2)), strides=seq((2, 1))), dict(pool_size=seq((2, 1))), dict(pool_size=3, strides=1),
+             dict(pool_size=seq((1, 1)), strides=seq((1, 2)))]:
+    lab = ", ".join("%s=%r" % kv for kv in sorted(kw.items()))
+    add("QAveragePooling2D", 0, lab, lambda name, kw=kw: Q.QAveragePooling2D(name=name, average_quantizer=qb(), **kw))
+  for kw in [dict(axis=[-1]), dict(axis=[3]), dict(axis=-1)]:
+    lab = ", ".join("%s=%r" % kv for kv in sorted(kw.items()))
+    add("QBatchNormalization", 0, lab, lambda name, kw=kw: Q.QBatchNormalization(name=name, **kw))
+  for kw in [dict(kernel_size=seq((2,)), strides=seq((2,))), dict(kernel_size=seq((1,)), dilation_rate=seq((2,))),
+             dict(kernel_size=1, strides=seq((1,)))]:
+    lab = ", ".join("%s=%r" % kv for kv in sorted(kw.items()))
+    add("QConv1D", 1, lab, lambda name, kw=kw: Q.QConv1D(2, name=name, kernel_quantizer=qb(), **kw))
+  for kw in [dict(kernel_size=seq((1,))), dict(kernel_size=seq((2,)), strides=seq((2,)))]:
+    lab = ", ".join("%s=%r" % kv for kv in sorted(kw.items()))
+    add("QSeparableConv1D", 1, lab, lambda name, kw=kw: Q.QSeparableConv1D(
+        2, name=name, depthwise_quantizer=qb(), pointwise_quantizer=qb(), **kw))
+  return [((6, 6, 2),), ((6, 3),)], out
+
+
+def quantizer_list_branches(rng, tier):
+  """list- / array-valued quantizer options at degenerate shapes: scale_axis as a one-element list and
+  as a list of all axes, elements_per_scale as int / one-element list, post_training_scale as a numpy
+  array of rank 0 / 1 / 2 / 4 with unit axes and as a numpy scalar, alpha as a list"""
+  import qkeras as Q
+  del tier
+  f32 = np.float32
+  pts = lambda shape: (2.0 ** rng.integers(-2, 2, shape)).astype(f32)
+  out = []
+  def add(cls_name, inp, qlab, mk):
+    out.append(dict(label="%s(kernel_quantizer=%s)" % (cls_name, qlab), cls=cls_name, inp=inp, make=mk,
+                    key={"layer": cls_name, "qclass": qlab.split("(")[0], "option": qlab}))
+  dense = [
+      ("quantized_bits(4,0,1,alpha='auto',scale_axis=[0])", lambda: Q.quantized_bits(4, 0, 1, alpha="auto", scale_axis=[0])),
+      ("quantized_bits(4,0,1,alpha='auto',scale_axis=[0,1])", lambda: Q.quantized_bits(4, 0, 1, alpha="auto", scale_axis=[0, 1])),
+      ("quantized_bits(4,0,1,alpha='auto_po2',scale_axis=[1])", lambda: Q.quantized_bits(4, 0, 1, alpha="auto_po2", scale_axis=[1])),
+      ("binary(alpha='auto',scale_axis=[0])", lambda: Q.binary(alpha="auto", scale_axis=[0])),
+      ("binary(alpha='auto',scale_axis=1,elements_per_scale=1)", lambda: Q.binary(alpha="auto", scale_axis=1, elements_per_scale=1)),
+      ("binary(alpha='auto',scale_axis=[1],elements_per_scale=[3])", lambda: Q.binary(alpha="auto", scale_axis=[1], elements_per_scale=[3])),
+      ("binary(alpha='auto_po2',scale_axis=[0,1],elements_per_scale=[5,1])",
+       lambda: Q.binary(alpha="auto_po2", scale_axis=[0, 1], elements_per_scale=[5, 1])),
+      ("quantized_bits(4,0,1,alpha='auto_po2',post_training_scale=<ndarray (1,3)>)",
+       lambda v=pts((1, 3)): Q.quantized_bits(4, 0, 1, alpha="auto_po2", post_training_scale=v)),
+      ("quantized_bits(4,0,1,alpha='auto_po2',post_training_scale=<ndarray (1,1)>)",
+       lambda v=pts((1, 1)): Q.quantized_bits(4, 0, 1, alpha="auto_po2", post_training_scale=v)),
+      ("quantized_bits(4,0,1,alpha='auto_po2',post_training_scale=<ndarray ()>)",
+       lambda v=pts(()): Q.quantized_bits(4, 0, 1, alpha="auto_po2", post_training_scale=np.asarray(v))),
+      ("quantized_bits(4,0,1,alpha='auto',post_training_scale=<ndarray (3,)>)",
+       lambda v=pts((3,)): Q.quantized_bits(4, 0, 1, alpha="auto", post_training_scale=v)),
+      ("quantized_bits(4,0,1,alpha='auto_po2',post_training_scale=<np.float32>)",
+       lambda v=pts(()): Q.quantized_bits(4, 0, 1, alpha="auto_po2", post_training_scale=f32(v))),
+      ("quantized_bits(4,0,1,alpha=[0.5,1.0,2.0])", lambda: Q.quantized_bits(4, 0, 1, alpha=[0.5, 1.0, 2.0])),
+      ("quantized_bits(4,0,1,alpha=<np.float32 2.0>)", lambda: Q.quantized_bits(4, 0, 1, alpha=f32(2.0))),
+  ]
+  for qlab, mkq in dense:
+    add("QDense", 0, qlab, lambda name, mkq=mkq: Q.QDense(3, name=name, kernel_quantizer=mkq()))
+  conv = [
+      ((1, 1), "quantized_bits(4,0,1,alpha='auto',scale_axis=[3])", lambda: Q.quantized_bits(4, 0, 1, alpha="auto", scale_axis=[3])),
+      ((1, 3), "quantized_bits(4,0,1,alpha='auto_po2',post_training_scale=<ndarray (1,1,1,2)>)",
+       lambda v=pts((1, 1, 1, 2)): Q.quantized_bits(4, 0, 1, alpha="auto_po2", post_training_scale=v)),
+      ((3, 1), "quantized_bits(4,0,1,alpha='auto',scale_axis=[0,1,2,3])",
+       lambda: Q.quantized_bits(4, 0, 1, alpha="auto", scale_axis=[0, 1, 2, 3])),
+  ]
+  for ks, qlab, mkq in conv:
+    add("QConv2D", 1, "%s; kernel_size=%s" % (qlab, ks),
+        lambda name, ks=ks, mkq=mkq: Q.QConv2D(2, ks, name=name, padding="same", kernel_quantizer=mkq()))
+  return [((5,),), ((5, 5, 2),)], out
+
+
+class Chain:
+  """several layers applied one after the other, handled as one branch of a packed model"""
+
+  def __init__(self, layers):
+    self.layers = list(layers)
+
+  def __call__(self, x):
+    for l in self.layers:
+      x = l(x)
+    return x
+
+  def get_weights(self):
+    return [l.get_weights() for l in self.layers]
+
+  def set_weights(self, ws):
+    for l, w in zip(self.layers, ws):
+      l.set_weights(w)
+
+
+def branch_layers(b):
+  return b.layers if isinstance(b, Chain) else [b]
+
+
+QUANTIZER_ARGS = {"quantized_bits": "4", "quantized_linear": "4", "quantized_hswish": "6,2"}
+
+
+def default_alpha_branches(rng, tier, trainable_classes):
+  """EVERY quantizer class that has `_set_trainable_parameter` (from the model's tables), with alpha
+  left at its default None, as object and as string, in the weight slots on which the layer
+  constructors call `_set_trainable_parameter` (alpha None -> 'auto_po2' AFTER construction), with
+  weights scaled far away from 1 so that the auto scale differs from the default scale; plus
+  quantizer objects with a history: shared by two layers, called stand-alone before being handed to
+  a layer, switched to 'auto_po2' by one layer and then used in a bias slot, re-configured through
+  the public `update_qnoise_factor`"""
+  import tensorflow as tf
+  import qkeras as Q
+  out = []
+  def qmake(cls_name, form):
+    args = QUANTIZER_ARGS.get(cls_name, "")
+    if form == "string":
+      return "%s(%s)" % (cls_name, args)
+    return getattr(Q, cls_name)(*[int(a) for a in args.split(",") if a])
+  def add(kind, slots, cls_name, form, mk):
+    scale = [0.05, 3.0][int(rng.integers(0, 2))]
+    lab = "%s(%s=%s as %s, alpha left at None) with weights scaled by %g" % (
+        kind, "/".join(slots), "%s(%s)" % (cls_name, QUANTIZER_ARGS.get(cls_name, "")), form, scale)
+    out.append(dict(label=lab, cls=kind, inp={"QDense": 0, "QScaleShift": 0, "QSimpleRNN": 2}.get(kind, 1), make=mk, wscale=scale,
+                    key={"layer": kind, "qclass": cls_name, "option": "default-alpha/%s/%s" % (form, "+".join(slots))}))
+  conv_classes = set(trainable_classes) if tier != "quick" else {
+      trainable_classes[int(i)] for i in rng.choice(len(trainable_classes), min(2, len(trainable_classes)), replace=False)}
+  for cls_name in trainable_classes:
+    for form in ("object", "string"):
+      add("QDense", ["kernel_quantizer"], cls_name, form,
+          lambda name, c=cls_name, f=form: Q.QDense(3, name=name, kernel_quantizer=qmake(c, f)))
+      # quick: a convolutional slot for two drawn classes (QConv2D with the object, QDepthwiseConv2D with the string)
+      conv_pick = 0 if cls_name in conv_classes else 1
+      if tier != "quick" or (form == "object" and conv_pick == 0):
+        add("QConv2D", ["kernel_quantizer"], cls_name, form,
+            lambda name, c=cls_name, f=form: Q.QConv2D(2, (2, 2), name=name, kernel_quantizer=qmake(c, f)))
+      if tier != "quick" or (form == "string" and conv_pick == 0):
+        add("QDepthwiseConv2D", ["depthwise_quantizer"], cls_name, form,
+            lambda name, c=cls_name, f=form: Q.QDepthwiseConv2D((2, 2), name=name, depthwise_quantizer=qmake(c, f)))
+      if tier != "quick":
+        add("QSeparableConv2D", ["depthwise_quantizer", "pointwise_quantizer"], cls_name, form,
+            lambda name, c=cls_name, f=form: Q.QSeparableConv2D(2, (2, 2), name=name, depthwise_quantizer=qmake(c, f),
+                                                               pointwise_quantizer=qmake(c, f)))
+        add("QSimpleRNN", ["kernel_quantizer", "recurrent_quantizer"], cls_name, form,
+            lambda name, c=cls_name, f=form: Q.QSimpleRNN(2, name=name, kernel_quantizer=qmake(c, f),
+                                                         recurrent_quantizer=qmake(c, f)))
+        add("QScaleShift", ["weight_quantizer"], cls_name, form,
+            lambda name, c=cls_name, f=form: Q.QScaleShift(name=name, weight_quantizer=qmake(c, f)))
+  # ---- histories on one quantizer object
+  def hist(lab, cls_name, mk, inp=0):
+    out.append(dict(label=lab, cls="QDense", inp=inp, make=mk, wscale=3.0,
+                    key={"layer": "QDense", "qclass": cls_name, "option": "history/" + lab.split(":")[0]}))
+  # quick: every kind of history on one class, drawn per run
+  picks = trainable_classes if tier != "quick" else [trainable_classes[int(rng.integers(0, len(trainable_classes)))]]
+  for cls_name in picks:
+    def shared(name, c=cls_name):
+      q = qmake(c, "object")
+      return Chain([Q.QDense(4, name=name + "a", kernel_quantizer=q), Q.QDense(3, name=name + "b", kernel_quantizer=q)])
+    hist("shared: one %s object (alpha None) is the kernel quantizer of two chained QDense layers" % cls_name, cls_name, shared)
+    def preused(name, c=cls_name):
+      q = qmake(c, "object")
+      q(tf.constant([[[0.5, -7.0, 2.5]]]))         # stand-alone call, another rank and magnitude
+      return Q.QDense(3, name=name, kernel_quantizer=q)
+    hist("pre-used: %s object (alpha None) called stand-alone on a rank-3 tensor, then handed to QDense" % cls_name,
+         cls_name, preused)
+    def then_bias(name, c=cls_name):
+      q = qmake(c, "object")
+      first = Q.QDense(4, name=name + "a", kernel_quantizer=q)      # switches q to 'auto_po2'
+      return Chain([first, Q.QDense(3, name=name + "b", kernel_quantizer=Q.quantized_bits(4, 0, 1, alpha=1.0),
+                                    bias_quantizer=q)])
+    hist("kernel-then-bias: %s object switched to auto_po2 by one QDense, then the bias quantizer of the next" % cls_name,
+         cls_name, then_bias)
+  def noise(name):
+    q = Q.quantized_bits(4, 0, 1, alpha=1.0)
+    q.update_qnoise_factor(0.5)
+    a = Q.quantized_relu(4, 1)
+    a.update_qnoise_factor(0.25)
+    return Q.QDense(3, name=name, kernel_quantizer=q, activation=a)
+  hist("update_qnoise_factor: quantized_bits / quantized_relu re-configured through update_qnoise_factor(0.5 / 0.25) "
+       "before being handed to QDense", "quantized_bits", noise)
+  return [((5,),), ((5, 5, 2),), ((3, 4),)], out
+
+
+def keras_name_branches(rng, tier):
+  """stock Keras layers inside a quantized model, naming their activation by a Keras built-in NAME:
+  `Activation(name)` behind a QDense for every built-in activation name, and for the names that
+  qkeras also exports (another function under the same name: hard_sigmoid) every stock layer kind
+  that takes an activation.  The three routes install the library's custom-object table, in which
+  custom names win over Keras' own: the table must not shadow a Keras name."""
+  import tensorflow as tf
+  import qkeras as Q
+  from qkeras import quantizers as QQ
+  del rng, tier
+  L = tf.keras.layers
+  names = sorted(n for n in dir(tf.keras.activations)
+                 if not n.startswith("_") and callable(getattr(tf.keras.activations, n))
+                 and n not in ("get", "serialize", "deserialize"))
+  colliding = [n for n in names if callable(getattr(QQ, n, None)) or callable(getattr(Q, n, None))]
+  qd = lambda name: Q.QDense(4, name=name, kernel_quantizer=Q.quantized_bits(4, 0, 1, alpha=1.0))
+  out = []
+  def add(kind, inp, name_, mk):
+    out.append(dict(label="QDense -> stock Keras %s using the Keras name %r" % (kind, name_) if inp == 0 else
+                    "stock Keras %s using the Keras name %r (next to Q-layers)" % (kind, name_),
+                    cls="keras:" + kind.split("(")[0], inp=inp, make=mk, keras_name=name_,
+                    key={"layer": "keras:" + kind.split("(")[0], "qclass": "keras-name", "option": name_}))
+  for n in names:
+    add("Activation", 0, n, lambda name, n=n: Chain([qd(name + "q"), L.Activation(n, name=name)]))
+  for n in colliding:
+    add("Dense(activation=)", 0, n, lambda name, n=n: Chain([qd(name + "q"), L.Dense(3, activation=n, name=name)]))
+    add("Conv2D(activation=)", 1, n, lambda name, n=n: L.Conv2D(2, (2, 2), activation=n, name=name))
+    add("LSTM(recurrent_activation=)", 2, n, lambda name, n=n: L.LSTM(2, recurrent_activation=n, name=name))
+    add("GRU(recurrent_activation=)", 2, n, lambda name, n=n: L.GRU(2, recurrent_activation=n, name=name))
+    add("SimpleRNN(activation=)", 2, n, lambda name, n=n: L.SimpleRNN(2, activation=n, name=name))
+  return [((5,),), ((5, 5, 2),), ((3, 4),)], out, colliding
+
+
+def native_value_cases():
+  """a plain Python value where the library calls a numpy method in get_config: the constructor
+  accepts it (`np.array(post_training_scale)`), every route then raises AttributeError —
+  known/C13.json C13-qbits-post_training_scale-not-numpy.  One model each (they cannot share a model
+  with anything else)."""
+  import qkeras as Q
+  return [
+      ("post_training_scale=list", "QDense(3, kernel_quantizer=quantized_bits(4,0,1,alpha='auto_po2',post_training_scale=[[0.5,0.25,1.0]]))",
+       lambda: Q.QDense(3, kernel_quantizer=Q.quantized_bits(4, 0, 1, alpha="auto_po2", post_training_scale=[[0.5, 0.25, 1.0]]))),
+      ("post_training_scale=float", "QDense(3, kernel_quantizer=quantized_bits(4,0,1,alpha='auto_po2',post_training_scale=0.5))",
+       lambda: Q.QDense(3, kernel_quantizer=Q.quantized_bits(4, 0, 1, alpha="auto_po2", post_training_scale=0.5))),
+  ]
+
+
 def ema_case(run, rng, scratch):
   """QAdaptiveActivation after a few training steps: the EMA min/max are model weights and are carried
   over by all three routes; the integer bits of the quantizer are derived state.  `call` used to
@@ -670,6 +993,7 @@ def static_tie(run, model_tables):
     cmp("static-quantizer-get_config-keys", name, a["emits"], b["emits"])
     cmp("static-quantizer-extra", name, [[k, dec_pv(v)] for k, v in a["extra"]], [[k, dec_pv(v)] for k, v in b["extra"]])
     cmp("static-quantizer-trainable", name, a["trainable"], b["trainable"])
+    cmp("static-quantizer-tolist", name, a["tolist"], b.get("tolist"))
   ll = {l["name"]: l for l in live["layers"]}
   ml = {l["name"]: l for l in model_tables["layers"]}
   cmp("static-layer-classes", "names", sorted(ll), sorted(ml))
@@ -683,6 +1007,16 @@ def static_tie(run, model_tables):
         [(p["name"], p["kind"], p["read"]) for p in b["params"]])
     cmp("static-layer-flags", name, (a["none_is_linear"], a["hook"]), (b["none_is_linear"], b["hook"]))
   cmp("static-custom-object-table", "keys", live["custom_objects"], model_tables["custom_objects"])
+  cmp("static-keras-activation-names", "names", live["keras_activation_names"], model_tables.get("keras_activation_names"))
+  # clause oracle on the table itself: inside the custom-object scope custom names win, so a key
+  # that Keras resolves on its own replaces Keras' function in every stock layer using the name
+  for k in live["custom_objects"]:
+    if k in live["keras_activation_names"]:
+      run.violate("table", {"layer": "custom-object-table", "qclass": "keras-name", "option": k,
+                            "failure": "shadows-keras-name"},
+                  {"key": k, "what": "the custom-object table registers %r, which is also a built-in Keras activation "
+                                     "name: Activation(%r) in a quantized model is rebuilt with the table's function" % (k, k),
+                   "replay": "qkeras.utils._add_supported_quantized_objects(d); %r in d" % k}, mirrored=False)
   # Clip / QInitializer signatures (special-cased structures of the model)
   from qkeras import qlayers
   cmp("static-clip-signature", "Clip", [(k, d) for k, _, d in T.sig_params(qlayers.Clip)],
@@ -740,6 +1074,8 @@ def run(run: core.Run, tier: str):
   live = static_tie(run, model_tables)
   specs = {l["name"]: l for l in model_tables["layers"]}
   qparams = {q["name"]: [p[0] for p in q["params"]] for q in model_tables["quantizers"]}
+  QTOLIST.clear()
+  QTOLIST.update({q["name"]: list(q.get("tolist", [])) for q in model_tables["quantizers"]})
   read_of = {n: [p["name"] for p in s["params"] if p["read"]] for n, s in specs.items()}
   del live
 
@@ -757,8 +1093,17 @@ def run(run: core.Run, tier: str):
                  "message": str(e)[:300].replace("\n", " "),
                  "replay": "build the model described by `model`; layer.%s()" % what}, mirrored=False)
 
-  def add_model(stream, label, key_base, model, x, defect=None, branches=None):
-    res = run_routes(model, x, scratch, branches)
+  import time as _time
+  stream_wall = {}
+  def add_model(stream, label, key_base, model, x, defect=None, branches=None, eager=False):
+    t0 = _time.time()
+    try:
+      return add_model_(stream, label, key_base, model, x, defect, branches, eager)
+    finally:
+      stream_wall[stream] = round(stream_wall.get(stream, 0.0) + _time.time() - t0, 1)
+
+  def add_model_(stream, label, key_base, model, x, defect=None, branches=None, eager=False):
+    res = run_routes(model, x, scratch, branches, eager)
     layers = []
     for path, layer in qkeras_layers_of(model):
       cls = layer.__class__.__name__
@@ -766,7 +1111,8 @@ def run(run: core.Run, tier: str):
         continue
       try:
         lj, _ = layer_json(layer, specs[cls], qparams)
-        real_cfg = json_canon(layer.get_config())
+        cfg_exc = lj.pop("cfg_exc")
+        real_cfg = None if cfg_exc is not None else json_canon(layer.get_config())
       except Exception as e:  # pylint: disable=broad-except
         real_raises("get_config", key_base, label, path, cls, e)
         continue
@@ -782,6 +1128,8 @@ def run(run: core.Run, tier: str):
             reloaded[r] = "missing"
             continue
           lj2, _ = layer_json(l2, specs[cls], qparams)
+          if lj2.pop("cfg_exc") is not None:
+            raise lj2_exc(l2)
         except Exception as e:  # pylint: disable=broad-except
           real_raises("get_config", dict(key_base, route=r), label + " (rebuilt)", path, cls, e)
           reloaded[r] = "unreadable"
@@ -789,8 +1137,36 @@ def run(run: core.Run, tier: str):
         a1, a2 = dict(map(tuple, [(k, json.dumps(v, sort_keys=True)) for k, v in lj["args"]])), \
                  dict(map(tuple, [(k, json.dumps(v, sort_keys=True)) for k, v in lj2["args"]]))
         reloaded[r] = sorted(k for k in read_of[cls] if a1[k] != a2[k])
-      layers.append(dict(path=path, cls=cls, lj=lj, real_cfg=real_cfg, reloaded=reloaded))
+      layers.append(dict(path=path, cls=cls, lj=lj, real_cfg=real_cfg, reloaded=reloaded,
+                         cfg_exc=None if cfg_exc is None else
+                         {"exception": type(cfg_exc).__name__, "message": str(cfg_exc)[:300].replace("\n", " ")}))
       pending.append((len(models), len(layers) - 1, {"op": "layer", "layer": lj}))
+    # stock Keras layers: the function behind an activation NAME must be the same object after every
+    # route (the model: Keras-native nodes come back unchanged; the custom-object scope must not
+    # shadow a Keras name)
+    def fn_id(f):
+      return "%s.%s" % (getattr(f, "__module__", "?"), getattr(f, "__name__", f.__class__.__name__))
+    for l in model.layers:
+      if not l.__class__.__module__.startswith(("tf_keras", "keras")):
+        continue
+      fns = {a: fn_id(getattr(l, a)) for a in ("activation", "recurrent_activation") if callable(getattr(l, a, None))}
+      if not fns:
+        continue
+      for r in ROUTES:
+        m2 = res[r][2]
+        if m2 is None:
+          continue
+        run.compared += 1
+        try:
+          l2 = m2.get_layer(l.name)
+          fns2 = {a: fn_id(getattr(l2, a)) for a in fns}
+        except Exception as e:  # pylint: disable=broad-except
+          fns2 = {"error": "%s: %s" % (type(e).__name__, str(e)[:120])}
+        if fns2 != fns:
+          run.count("keras_layer_function_replaced")
+          run.disagree("keras-layer-function", {"model": label if len(label) < 300 else label[:300] + "...",
+                                                "layer": l.name, "class": l.__class__.__name__, "route": r},
+                       fns2, fns)
     wrappers = []
     for l in model.layers:
       if l.__class__.__name__ == "QBidirectional":
@@ -798,10 +1174,12 @@ def run(run: core.Run, tier: str):
         # re-created from its config, backward_layer is renamed after its config was taken
         try:
           f, _ = layer_json(l.layer, specs[l.layer.__class__.__name__], qparams)
+          f.pop("cfg_exc")
           cfg = l.get_config()
           b = None
           if "backward_layer" in cfg:
             b, _ = layer_json(l.backward_layer, specs[l.backward_layer.__class__.__name__], qparams)
+            b.pop("cfg_exc")
             stored = cfg["backward_layer"]["config"]["name"]
             b["kwargs"] = [[k, (stored if k == "name" else v)] for k, v in b["kwargs"]]
           kw = [[k, enc_pv(json_canon(v))] for k, v in cfg.items() if k not in ("layer", "backward_layer")]
@@ -811,9 +1189,10 @@ def run(run: core.Run, tier: str):
           continue
         pending.append((len(models), -len(wrappers), {"op": "bidir", "kw": kw, "fwd": f, "bwd": b}))
     models.append(dict(stream=stream, label=label, key=key_base, res={r: res[r][:2] for r in ROUTES},
-                       layers=layers, wrappers=wrappers, defect=defect))
+                       layers=layers, wrappers=wrappers, defect=defect, children=[]))
     for r in ROUTES:
       run.count("route_%s_%s" % (r, res[r][0]))
+    return len(models) - 1
 
   models = []
   try:
@@ -899,6 +1278,7 @@ def run(run: core.Run, tier: str):
         model = tf.keras.Model(inp, layer(inp))
         randomize_weights(model, rng)
         x = (rng.normal(0, 1, (3,) + shp) * 2).astype(np.float32)
+        model.run_eagerly = True     # fixed models: eager predict, original and rebuilt alike (run time)
         model.predict(x, verbose=0)
       except Exception as e:  # pylint: disable=broad-except
         run.count("build_failed")
@@ -907,7 +1287,7 @@ def run(run: core.Run, tier: str):
       run.case(("regression", c["label"]), sample={"stream": "regression", "model": c["label"]} if c["option"] == "scale_axis" else None)
       run.count("kind_regression_" + c["kind"])
       add_model("regression", c["label"], {"layer": c["kind"], "qclass": c["qclass"], "option": c["option"]}, model, x,
-                defect=c["label"])
+                defect=c["label"], eager=True)
     # ---------------- stream 4: QActivation built from quantizer OBJECTS with non-default options,
     #                  one branch per object, outputs concatenated (one model, 3 routes)
     tf.keras.backend.clear_session()
@@ -934,7 +1314,7 @@ def run(run: core.Run, tier: str):
       run.case(("qactivation-objects", label), sample={"stream": "qactivation-objects", "branches": [b[0] for b in branches]})
       run.count("kind_qactivation_objects")
       add_model("qactivation-objects", label, {"layer": "QActivation", "qclass": "objects", "option": "non-default"},
-                model, xz, branches=branches)
+                model, xz, branches=branches, eager=True)
 
     # ---------------- stream 5: arguments explicitly None whose constructor default is not None
     for cls_name, label, kw in explicit_none_cases(specs, tier):
@@ -951,6 +1331,7 @@ def run(run: core.Run, tier: str):
         model = tf.keras.Model(inp, layer(inp))
         randomize_weights(model, rng)
         x = (rng.normal(0, 1, (3,) + shp) * 2).astype(np.float32)
+        model.run_eagerly = True
         model.predict(x, verbose=0)
       except Exception as e:  # pylint: disable=broad-except
         run.count("build_failed")
@@ -958,18 +1339,157 @@ def run(run: core.Run, tier: str):
         continue
       run.case(("explicit-none", label), sample={"stream": "explicit-none", "model": label} if cls_name == "QBatchNormalization" and len(kw) == 4 else None)
       run.count("kind_explicit_none_" + cls_name)
-      add_model("explicit-none", label, {"layer": cls_name, "qclass": "None", "option": "explicit-none"}, model, x)
+      add_model("explicit-none", label, {"layer": cls_name, "qclass": "None", "option": "explicit-none"}, model, x, eager=True)
 
-    # ---------------- stream 6: a QAdaptiveActivation whose EMA state was trained
+    # ---------------- stream 6: constructor arguments that take an array / tuple / list, at degenerate
+    #                  shapes.  Branches of a few packed models; a failing route is re-run per branch.
+    mask_ties = []
+    def packed(group, in_shapes, branches):
+      def assemble(cands):
+        tf.keras.backend.clear_session()
+        inps = [L.Input(sh[0], name="%s_in%d" % (group, k)) for k, sh in enumerate(in_shapes)]
+        outs, kept, slices, pos, bad = [], [], [], 0, []
+        for i, b in cands:
+          name = "%s%02d" % (group, i)
+          try:
+            layer = b["make"](name)
+            o = L.Flatten(name=name + "_flat")(layer(inps[b["inp"]]))
+          except Exception as e:  # pylint: disable=broad-except
+            bad.append({"label": b["label"], "error": "%s: %s" % (type(e).__name__, str(e)[:160].replace("\n", " "))})
+            continue
+          width = int(o.shape[-1])
+          outs.append(o)
+          kept.append((i, b, name, layer))
+          slices.append((b["label"], (pos, pos + width)))
+          pos += width
+        used = sorted({b["inp"] for _, b, _, _ in kept})
+        model = tf.keras.Model([inps[k] for k in used], L.Concatenate(name=group + "_cat")(outs) if len(outs) > 1 else outs[0])
+        return model, used, kept, slices, bad
+      cands = list(enumerate(branches))
+      xs = [rng.normal(0, 1, (3,) + sh[0]).astype(np.float32) for sh in in_shapes]
+      model, used, kept, slices, bad = assemble(cands)
+      def scale_weights(kept):
+        for _, b, _, layer in kept:
+          if b.get("wscale"):
+            for l in branch_layers(layer):
+              l.set_weights([w * np.float32(b["wscale"]) if (w.ndim > 0 and np.issubdtype(w.dtype, np.floating)) else w
+                             for w in l.get_weights()])
+      try:
+        randomize_weights(model, rng)
+        scale_weights(kept)
+        model.run_eagerly = True
+        model.predict([xs[k] for k in used], verbose=0)
+      except Exception:  # pylint: disable=broad-except
+        # some branch does not run: find out which ones on their own and assemble the rest
+        good = []
+        for i, b in cands:
+          try:
+            tf.keras.backend.clear_session()
+            inp = L.Input(in_shapes[b["inp"]][0])
+            tf.keras.Model(inp, b["make"]("t%d" % i)(inp)).predict(xs[b["inp"]], verbose=0)
+            good.append((i, b))
+          except Exception as e:  # pylint: disable=broad-except
+            bad.append({"label": b["label"], "error": "%s: %s" % (type(e).__name__, str(e)[:160].replace("\n", " "))})
+        model, used, kept, slices, bad2 = assemble(good)
+        bad += bad2
+        randomize_weights(model, rng)
+        scale_weights(kept)
+        model.run_eagerly = True
+        model.predict([xs[k] for k in used], verbose=0)
+      if bad:
+        run.count("build_failed", len(bad))
+        run.extra.setdefault("build_failed", []).extend(bad)
+      x = [xs[k] for k in used]
+      x = x[0] if len(x) == 1 else x
+      for _, b, _, layer in kept:
+        run.case((group, b["label"]), sample={"stream": group, "model": b["label"]}
+                 if (b["key"]["option"].startswith(("kernel=1x3", "default-alpha/object/kernel", "hard_sigmoid"))
+                     and b["cls"] in ("QConv2D", "keras:Activation")) else None)
+        run.count("%s_%s" % (group, b["cls"]))
+        if "mask" in b:
+          run.count("mask_" + b["key"]["option"].split("mask=")[1].split("/")[0])
+          mask_ties.append((b["label"], enc_pv(canon(b["mask"])), canon(layer._mask)))  # pylint: disable=protected-access
+      label = "%s: %d branches, flattened and concatenated: %s" % (group, len(kept), "; ".join(b["label"] for _, b, _, _ in kept))
+      weights = {name: layer.get_weights() for _, _, name, layer in kept}
+      mi = add_model("array-args:" + group, label, {"layer": "packed:" + group, "qclass": "array-args", "option": group},
+                     model, x, branches=slices, eager=True)
+      if all(models[mi]["res"][r][0] == "ok" for r in ROUTES):
+        run.count("packed_model_ok")
+        return
+      run.count("packed_model_fails")
+      for i, b, name, _ in kept:
+        tf.keras.backend.clear_session()
+        try:
+          inp = L.Input(in_shapes[b["inp"]][0])
+          layer = b["make"](name)
+          single = tf.keras.Model(inp, L.Flatten(name=name + "_flat")(layer(inp)))
+          layer.set_weights(weights[name])
+          single.run_eagerly = True
+          single.predict(xs[b["inp"]], verbose=0)
+        except Exception as e:  # pylint: disable=broad-except
+          run.count("build_failed")
+          run.extra.setdefault("build_failed", []).append({"label": b["label"], "error": "%s: %s" % (type(e).__name__, str(e)[:160])})
+          continue
+        ci = add_model("array-args-branch", b["label"], b["key"], single, xs[b["inp"]], eager=True)
+        models[mi]["children"].append(ci)
+
+    trainable_classes = [q["name"] for q in model_tables["quantizers"]
+                         if q["trainable"] and q["name"] not in EXCLUDED]
+    keras_info = {}
+    def keras_names(rng_, tier_):
+      shapes, branches, colliding = keras_name_branches(rng_, tier_)
+      keras_info["colliding"] = colliding
+      return shapes, branches
+    for group, fn in (("mask", mask_branches), ("tuple", tuple_branches), ("qlist", quantizer_list_branches),
+                      ("alpha", lambda r, t: default_alpha_branches(r, t, trainable_classes)),
+                      ("keras", keras_names)):
+      in_shapes, branches = fn(rng, tier)
+      t0 = _time.time()
+      packed(group, in_shapes, branches)
+      stream_wall["array-args:%s (build included)" % group] = round(_time.time() - t0, 1)
+    run.extra["keras_activation_names_also_exported_by_qkeras"] = keras_info.get("colliding")
+
+    # a list is not an array: the QConv2D constructor reads `mask.shape` (no round trip to check)
+    try:
+      Q.QConv2D(2, (2, 2), mask=[[1, 0], [1, 1]])
+      run.count("mask_list_accepted_by_constructor")
+    except AttributeError:
+      run.count("mask_list_rejected_by_constructor")
+
+    # ---------------- stream 7: plain Python values where get_config calls a numpy method
+    for opt, label, mk in native_value_cases():
+      tf.keras.backend.clear_session()
+      try:
+        inp = L.Input((5,))
+        model = tf.keras.Model(inp, mk()(inp))
+        randomize_weights(model, rng)
+        x = rng.normal(0, 1, (3, 5)).astype(np.float32)
+        model.predict(x, verbose=0)
+      except Exception as e:  # pylint: disable=broad-except
+        run.count("build_failed")
+        run.extra.setdefault("build_failed", []).append({"label": label, "error": "%s: %s" % (type(e).__name__, str(e)[:160])})
+        continue
+      run.case(("native-values", label), sample={"stream": "native-values", "model": label} if opt.endswith("list") else None)
+      run.count("kind_native_values")
+      add_model("native-values", label, {"layer": "QDense", "qclass": "quantized_bits", "option": opt}, model, x)
+
+    # ---------------- stream 8: a QAdaptiveActivation whose EMA state was trained
     ema_case(run, rng, scratch)
   finally:
     shutil.rmtree(scratch, ignore_errors=True)
 
   # ---------------- model side, one driver call
-  outs = core.run_driver("C13", [p[2] for p in pending])
+  outs = core.run_driver("C13", [p[2] for p in pending] + [{"op": "mask", "mask": given} for _, given, _ in mask_ties])
   by_model = {}
   for (mi, li, _), o in zip(pending, outs):
     by_model.setdefault(mi, {})[li] = o
+  # constructor tie for the masks: np.reshape(mask, (h, w, 1, 1)) on the array the user gave vs
+  # reshapeMask, and the stored mask must be a fixed point of the model's constructor
+  for (label, _, stored), o in zip(mask_ties, outs[len(pending):]):
+    run.compared += 1
+    got = dec_pv(o["stored"]) if o.get("ok") else {"err": o.get("err")}
+    if got != stored or not (o.get("reread") or {}).get("same"):
+      run.disagree("mask-constructor", {"layer": label}, stored, {"stored": got, "reread": o.get("reread")})
 
   for mi, m in enumerate(models):
     predicted_bad = False      # model says a read argument changes / the rebuild raises
@@ -977,10 +1497,25 @@ def run(run: core.Run, tier: str):
     dropped_nonread = False
     for li, lay in enumerate(m["layers"]):
       o = by_model[mi][li]
+      # tie 0: does get_config raise?
+      run.compared += 1
+      model_raises = bool(o.get("get_config_raises"))
+      if (lay["cfg_exc"] is not None) != model_raises:
+        run.disagree("get_config-raises", {"model": m["label"], "layer": lay["path"], "class": lay["cls"]},
+                     lay["cfg_exc"] or "returns", {"model_says_raises": model_raises})
+      if lay["cfg_exc"] is not None:
+        run.count("real_code_raises_get_config")
+        run.violate("serialise", dict(m["key"], layer_class=lay["cls"], failure="get_config-raises",
+                                      exception=lay["cfg_exc"]["exception"]),
+                    dict(lay["cfg_exc"], model=m["label"], layer=lay["path"],
+                         replay="build the model described by `model`; layer.get_config()"),
+                    mirrored=model_raises)
       # tie 1: get_config
       run.compared += 1
       mcfg = dec_pv(o["config"])
-      if mcfg != lay["real_cfg"]:
+      if lay["cfg_exc"] is not None:
+        pass
+      elif mcfg != lay["real_cfg"]:
         diff = sorted(k for k in set(mcfg) | set(lay["real_cfg"]) if mcfg.get(k, "<absent>") != lay["real_cfg"].get(k, "<absent>"))
         run.disagree("get_config", {"model": m["label"], "layer": lay["path"], "class": lay["cls"], "keys": diff},
                      {k: lay["real_cfg"].get(k, "<absent>") for k in diff[:4]}, {k: mcfg.get(k, "<absent>") for k in diff[:4]})
@@ -1035,11 +1570,17 @@ def run(run: core.Run, tier: str):
       status, detail = m["res"][r]
       if status == "ok":
         continue
+      if any(models[c]["res"][r][0] != "ok" for c in m["children"]):
+        # a packed model: the branches that fail this route on their own are reported instead
+        run.count("packed_failure_named_by_branch")
+        continue
       if status == "raises":
         mirrored = predicted_raise
       else:
         mirrored = predicted_bad
       key = dict(m["key"], route=r, failure=status)
+      if status == "raises":
+        key["exception"] = detail.get("exception")
       run.violate("route", key, dict(detail, model=m["label"], route=r, status=status,
                                      replay="build the model described by `model`, then qkeras.utils "
                                             "%s route without custom_objects" % r), mirrored=mirrored)
@@ -1048,5 +1589,6 @@ def run(run: core.Run, tier: str):
       run.count("regression_fails" if bad else "regression_holds")
       if bad:
         run.extra.setdefault("repaired_defects_back", []).append(m["label"])
+  print("[C13] seconds inside the routes / ties, per stream: %s" % json.dumps(stream_wall, sort_keys=True), flush=True)
   run.extra["models"] = len(models)
   run.extra["layers_tied"] = sum(len(m["layers"]) for m in models)
